@@ -2,8 +2,9 @@
 (* Property monitor for C14 on recorded executions of a REAL goakt actor.  It knows  *)
 (* only the documented contract: a stack of behaviors, top first, "D" = the default  *)
 (* behavior; Become replaces everything, BecomeStacked pushes, UnBecomeStacked pops, *)
-(* UnBecome leaves only the default; an actor restarted by PID.Restart starts again  *)
-(* with the default only.  For every message it checks which behavior function the   *)
+(* UnBecome leaves only the default; a restarted actor (PID.Restart, or its handler   *)
+(* panicked and the supervisor's directive is Restart) starts again with the default *)
+(* only.  For every message it checks which behavior function the   *)
 (* runtime really invoked ("none" = no function was invoked, the message was         *)
 (* dropped) and that every switch call was made by that same invocation.             *)
 (* Every line is consumed; a deviation is printed as                                 *)
@@ -32,6 +33,9 @@ Step ==
                                /\ UNCHANGED cur
        [] e.op = "Restart" -> /\ Report("restart", "", e.err)
                               /\ ideal' = <<"D">> /\ cur' = "none"     \* a restarted actor starts with its default behavior only
+       [] e.op = "Crash"   -> /\ Report("executing", cur, e.h)        \* the handler panicked, the supervisor restarted the actor
+                              /\ Report("crash", "", e.err)
+                              /\ ideal' = <<"D">> /\ cur' = "none"
        [] OTHER            -> UNCHANGED <<ideal, cur>>
 Spec == Init /\ [][Step]_<<l, ideal, cur>>
 ====
